@@ -124,9 +124,15 @@ const (
 	// shared global bit is then cleared on the range); Devanagari half=1.
 	// Ranged kern / liga (no base search) agree on both sides.
 	ClsFeatureMerge = "skew(c) capability: mark attachment base search across glyphs without the lookup mask (ranged / duplicated / forced internal user feature; 6.0.0 stops, newer upstream passes over)"
-	ClsVarRounding  = "tolerance: interpolated values under variation coordinates differ by at most 1 font unit (offsets of stacked marks: 1 per glyph of the cluster)"
-	ClsGoPanic      = "go side panicked (C01)"
-	ClsCFail        = "reference failed: hb_shape_full returned false"
+	// (c8) AAT user features with a cluster range: hb_aat_map_builder_t::add_feature of
+	// 6.0.0 takes (tag, value) and applies the setting to the whole buffer; upstream 7.0
+	// and the port compile one AAT map per range. Witness: Courier.dfont#3,
+	// "fffff…flower." with liga[5:25]=3: 6.0.0 ligates from cluster 0 (exactly as with a
+	// global liga=3; without the feature nothing ligates), the port from cluster 5.
+	ClsAATRanged   = "skew(c) capability: AAT (morx) user feature with a cluster range (6.0.0 applies it to the whole buffer, 7.0+ and the port per range)"
+	ClsVarRounding = "tolerance: interpolated values under variation coordinates differ by at most 1 font unit (offsets of stacked marks: 1 per glyph of the cluster)"
+	ClsGoPanic     = "go side panicked (C01)"
+	ClsCFail       = "reference failed: hb_shape_full returned false"
 )
 
 // features the shapers enable on their own (hb-ot-shape.cc common and
@@ -296,6 +302,9 @@ func InputSkew(p *Pair, c *Case, rs Resolved, cat string, sk *Skew) string {
 	}
 	for i, f := range c.Feats {
 		ranged := f.Start != 0 || f.End >= 0
+		if ranged && fi.Morx && !fi.GSUB {
+			return ClsAATRanged
+		}
 		// (i) a range that gives a shaper-enabled feature another value (0, or an alternate index) than outside the range
 		if ranged && f.Value != 1 && shaperFeatures[f.Tag] && fi.AttachTags[f.Tag] {
 			return ClsFeatureMerge
@@ -308,6 +317,14 @@ func InputSkew(p *Pair, c *Case, rs Resolved, cat string, sk *Skew) string {
 			granged := g.Start != 0 || g.End >= 0
 			// (i)/(ii) same tag listed twice with different scope and different value
 			if g.Tag == f.Tag && granged != ranged && g.Value != f.Value {
+				return ClsFeatureMerge
+			}
+			// (ii') same tag on two ranges: the glyphs between the ranges lack the lookup
+			// mask, and a mark of one range finds its base in the other across them
+			// (gpos4_lookupflag_f1, test[3:7]=1 test[0:2]=1: the port attaches the mark of
+			// cluster 3 to the base of cluster 1 over the unmasked glyph of cluster 2;
+			// 6.0.0 stops at that glyph; a single range never attaches on either side)
+			if g.Tag == f.Tag && granged && ranged {
 				return ClsFeatureMerge
 			}
 		}
